@@ -15,6 +15,9 @@
  *                         N = 0 / unset: only count.
  *     CRASH_COUNT_FILE=f  the total number of counted calls is written to f when the process exits normally.
  *     CRASH_LOG_FILE=f    one line per counted call: "<index> <syscall> <db|journal|wal|shm> <bytes or -> <offset or ->"
+ *     CRASH_NOSYNC=1      counted fsync/fdatasync calls are counted, logged and killed-before as usual but not performed
+ *                         (they only matter when the machine dies; the page cache survives the death of a process).
+ *                         Used for the many killed / continuing processes; the reference runs sync for real.
  */
 #define _GNU_SOURCE
 #include <dlfcn.h>
@@ -32,6 +35,7 @@ static long g_count = 0;
 static long g_crash_at = -1;                 /* -1: not read yet */
 static int g_logfd = -1;
 static int g_init = 0;
+static int g_nosync = 0;
 
 static int (*r_open)(const char*, int, ...);
 static int (*r_open64)(const char*, int, ...);
@@ -84,6 +88,8 @@ static void init(void) {
   r_close = dlsym(RTLD_NEXT, "close");
   const char* s = getenv("CRASH_AT");
   g_crash_at = s ? atol(s) : 0;
+  const char* ns = getenv("CRASH_NOSYNC");
+  g_nosync = ns && *ns == '1';
   const char* l = getenv("CRASH_LOG_FILE");
   if (l && *l) g_logfd = r_open(l, O_WRONLY | O_CREAT | O_TRUNC | O_CLOEXEC, 0644);
 }
@@ -173,13 +179,13 @@ ssize_t pwrite64(int fd, const void* buf, size_t n, off64_t off) {
 int fsync(int fd) {
   init();
   int k = fdk(fd);
-  if (k) hit("fsync", k, -1, -1);
+  if (k) { hit("fsync", k, -1, -1); if (g_nosync) return 0; }
   return r_fsync(fd);
 }
 int fdatasync(int fd) {
   init();
   int k = fdk(fd);
-  if (k) hit("fdatasync", k, -1, -1);
+  if (k) { hit("fdatasync", k, -1, -1); if (g_nosync) return 0; }
   return r_fdatasync(fd);
 }
 int ftruncate(int fd, off_t len) {
